@@ -34,6 +34,22 @@ def ev(f, e, env, locals_=None, depth=0):
     k = e["k"]
     c = e.get("c", [])
     t = facts.ty(f, e)
+    tf = env.get("__termfn__")
+    if tf is not None:
+        tv = tf(e)
+        if tv is not None:
+            return wrap(tv, t)
+    if k == "MemberExpr" and e.get("isfield") and c and env.get("__db__") is not None:
+        # bit-field / member of a record-valued term
+        base = ev(f, c[0], env, locals_, depth + 1)
+        r = env["__db__"].records.get(e.get("mrec"))
+        fl = [x for x in (r or {}).get("fields", []) if x["name"] == e.get("member")]
+        if not fl:
+            raise Unknown("field %s" % e.get("member"))
+        w = fl[0].get("bitw") or fl[0]["bits"]
+        return wrap((base >> fl[0]["off"]) & ((1 << w) - 1), t)
+    if k in ("CXXConstructExpr", "CXXTemporaryObjectExpr") and len(c) == 1:
+        return ev(f, c[0], env, locals_, depth + 1)
     if k in ("ParenExpr", "ExprWithCleanups", "MaterializeTemporaryExpr", "CXXBindTemporaryExpr", "ConstantExpr"):
         return ev(f, c[0], env, locals_, depth + 1)
     if k in ("ImplicitCastExpr", "CStyleCastExpr", "CXXStaticCastExpr", "CXXFunctionalCastExpr"):
@@ -116,4 +132,4 @@ def ev(f, e, env, locals_=None, depth=0):
         return ev(f, c[1], env, locals_, depth + 1) if ev(f, c[0], env, locals_, depth + 1) else ev(f, c[2], env, locals_, depth + 1)
     if k == "CallExpr" and e.get("cname") == "__builtin_expect":
         return ev(f, c[1], env, locals_, depth + 1)
-    raise Unknown("expression kind %s" % k)
+    raise Unknown("expression kind %s `%s`" % (k, facts.expr_str(e)[:60]))
